@@ -71,6 +71,24 @@ pub fn assume(c: bool) {
     if !c { std::panic::panic_any(Rejected); }
 }
 
+/// a value in 0..=max (max < 256): `any::<u8>()` constrained by an assumption under Kani; natively one stream byte
+/// reduced mod (max + 1), so the random search does not waste its samples on rejected values (a Kani
+/// counterexample byte already satisfies the bound and is decoded unchanged)
+pub fn upto(max: usize) -> usize {
+    #[cfg(kani)]
+    { let v: u8 = kani::any(); kani::assume((v as usize) <= max); v as usize }
+    #[cfg(not(kani))]
+    { (pop() as usize) % (max + 1) }
+}
+
+/// like `pick`, natively a value in 0..=max
+pub fn pick_upto(concrete: u8, max: u8) -> u8 {
+    #[cfg(kani)]
+    { let _ = max; concrete }
+    #[cfg(not(kani))]
+    { let _ = concrete; (pop() as usize % (max as usize + 1)) as u8 }
+}
+
 /// a value that is nondeterministic in native search but fixed under Kani (keeps 64-bit position
 /// arithmetic of the stream wrapper concrete; stated in the harness bounds)
 pub fn pick(concrete: u8) -> u8 {
